@@ -274,6 +274,23 @@ def gen_loss_case(rng, tier, j):
         costs = [rng.choice(G.DYADIC) for _ in range(3)]
     scale = rng.choice([10.0, 25.0]) if cls == "ocd_spread" else rng.choice([0.5, 1.0, 3.0])
     logits = [[[round(rng.gauss(0.0, 1.0) * scale, 3) for _ in range(V)] for _ in range(H)] for _ in range(N)]
+    extra = rng.random()
+    if extra < 0.12 and H and N:
+        # one or two entries of the whole tensor are enormous (a constrained decoder's forced token, junk at a step
+        # past a hypothesis's end): every OTHER prefix's loss is still that prefix's own
+        for _ in range(rng.randint(1, 2)):
+            logits[rng.randrange(N)][rng.randrange(H)][rng.randrange(V)] = rng.choice([3e8, 1e9, -3e8])
+    elif extra < 0.24 and H and N:
+        # a class that is never a target (absent from every reference, not eos) is masked out by the model: -inf
+        used = {t for col in refs for t in col} | {eos}
+        free = [c for c in range(V) if c not in used]
+        if free:
+            c = rng.choice(free)
+            everywhere = rng.random() < 0.5
+            for n in range(N):
+                for k in range(H):
+                    if everywhere or rng.random() < 0.4:
+                        logits[n][k][c] = float("-inf")
     return {
         "class": cls, "kind": "loss", "ref": refs, "hyp": hyps, "logits": logits, "V": V, "eos": eos,
         "include_eos": include_eos, "batch_first": rng.random() < 0.5,
@@ -476,6 +493,8 @@ def _near(a, b, scale):
 
 
 def _exec_loss(case, mon):
+    import torch
+
     N, H, V = len(case["ref"]), case["H"], case["V"]
     eos, inc = case["eos"], case["include_eos"]
     ins, dl, sub = case["costs"]
@@ -497,7 +516,16 @@ def _exec_loss(case, mon):
     if not judged:
         return
     lg64 = (logits if case["batch_first"] else logits.transpose(0, 1)).double().tolist()  # [N][H][V]
-    scale = max(1.0, float(logits.abs().max())) if logits.numel() else 1.0
+    finite = logits[torch.isfinite(logits)]
+    scale = max(1.0, float(finite.abs().max())) if finite.numel() else 1.0
+    if bool((logits == float("-inf")).any()):
+        mon.cls("loss_class_masked_out_by_minus_inf")
+    if scale >= 1e8:
+        mon.cls("loss_enormous_logit_somewhere")
+
+    def row_scale(n, k):
+        # a prefix's loss is a function of that prefix's own logits: its round-off scales with THEM
+        return max([1.0] + [abs(x) for x in lg64[n][k] if math.isfinite(x)])
     # per pair: the expected per-prefix losses (None = prefix past the end), in float64
     exp = []  # exp[n][k]
     excluded = []  # pairs with an empty hypothesis: not judged; both conventions admitted in reductions
@@ -538,9 +566,10 @@ def _exec_loss(case, mon):
             row, tab = exp[n]
             for k in range(H):
                 want = 0.0 if row[k] is None else row[k]
-                ok = _near(g[n][k], want, scale) and (want != 0.0 or g[n][k] == 0.0)
+                rs = row_scale(n, k)
+                ok = _near(g[n][k], want, rs) and (want != 0.0 or g[n][k] == 0.0)
                 if ok:
-                    mon.dev("loss(fraction of tolerance)", abs(g[n][k] - want) / _tol(want, scale), 1.0)
+                    mon.dev("loss(fraction of tolerance)", abs(g[n][k] - want) / _tol(want, rs), 1.0)
                 mon.check(ok, "loss-none-value", observed=g[n][k], expected=want, n=n, k=k,
                           past_end=row[k] is None, targets=sorted(tab[k]) if row[k] is not None else None)
     else:
